@@ -332,6 +332,11 @@ def logicalStep (rows : List LRow) : Op → List LRow
       if r.cpu = 0 then rows.dropLast ++ [{ r with t := t, w := r.w + w }]
       else rows ++ [⟨t, r.stack, 0, w⟩]
 
+/-- the sample an `add` call adds, literally (`none` for the merge call) -/
+def Op.addRow? : Op → Option LRow
+  | .add t stack c w => some ⟨t, stack, c / 1000, w⟩
+  | .merge _ _ => none
+
 def logicalFrom (rows : List LRow) (ops : List Op) : List LRow := ops.foldl logicalStep rows
 
 /-- the logical samples of a call history, in call order -/
